@@ -45,6 +45,12 @@ def handle : List String → Option String
   | ["keepback", cwd, er, eh, p] => do
     let cwd ← str cwd; let er ← optStr er; let eh ← optStr eh
     pure (exc (keepAffixes (fun x => translateBackEnv cwd er eh x dot) (← str p)))
+  | ["exetr", cwd, er, eh, exe, wd] => do
+    -- `script()` / `call()`: `_keep_affixes(executable, Path.normpath)`, then `translate(exe, workdir)`
+    let cwd ← str cwd; let er ← optStr er; let eh ← optStr eh; let exe ← str exe; let wd ← str wd
+    pure (match keepAffixes normpath exe with
+      | .ok e => "ok " ++ out (translateEnv cwd er eh e wd)
+      | .error n => s!"err {n}")
   | ["envvars", cwd, wd] => do
     let cwd ← str cwd; let wd ← str wd
     pure (out (envRootVar cwd wd) ++ " " ++ out (envHereVar cwd wd))
